@@ -18,7 +18,10 @@ RULE = ("round-trip cases: a weakly connected DAG with >=1 edge (edges in constr
         "real setters), attributes on some nodes, a start node, a format (list / dict / DataFrame through real "
         "pandas) and an attribute selection (all_attrs or an attr_dict, sometimes renaming); compared: the export "
         "(as a multiset) and the DAG rebuilt from it by the matching constructor (node names, edge set, attributes). "
-        "Constructor cases: relations / dictionaries / row lists in shuffled orders, with duplicates, several "
+        "An empty selection is passed either as attr_dict={} or not at all (the exporter's own defaults; cases run in one "
+        "process, so whatever an earlier export left in a shared default shows); the caller's attr_dict must come back "
+        "unchanged; about 30 % of the random DAGs are history-built (queries, refused and rolled-back assignments, "
+        "temporary edges interleaved); names colliding under concatenation. Constructor cases: relations / dictionaries / row lists in shuffled orders, with duplicates, several "
         "components, and a malformed stream with cycles, self loops, empty input, conflicting attribute rows "
         "(refusals: TreeError for cycles). Exhaustive: all weakly connected DAGs on 2..4 nodes x 3 formats from one "
         "start node (quick) / every start node (thorough). Non-trivial = at least 3 edges")
@@ -63,11 +66,18 @@ def _line(d):
     return "op=cons fmt=rows W=%s" % _semi(_enc_entry(k, None if p is None else [p], a) for k, p, a in d["rows"])
 
 
-def mk_rt(n, edges, start, fmt, sel, attrs, rng, names=None, tags=()):
+def mk_rt(n, edges, start, fmt, sel, attrs, rng, names=None, tags=(), noise=0):
     edges = [list(e) for e in edges]
     d = {"op": "rt", "fmt": fmt, "sel": sel, "n": n, "edges": edges, "start": start, "attrs": attrs,
          "modes": "".join(rng.choice("PPCCRL") for _ in edges), "names": names or ["n%d" % i for i in range(n)]}
-    return Case(_line(d), d, tuple(tags) + ("rt", fmt))
+    tags = tuple(tags)
+    if sel == [] and rng.random() < 0.6:
+        d["dflt"] = 1           # call the exporter with its DEFAULT attr_dict / all_attrs (no keyword at all)
+        tags += ("default-args",)
+    if noise:
+        d["noise"] = U.add_noise(rng, n, edges, noise)
+        tags += ("history",)
+    return Case(_line(d), d, tags + ("rt", fmt))
 
 
 def mk_cons(fmt, payload, n, names=None, tags=()):
@@ -84,6 +94,8 @@ def _random_sel(rng, attrs):
     r = rng.random()
     if r < 0.45:
         return "all"
+    if r < 0.6:
+        return []
     keys = [k for k in U.ATTR_KEYS if rng.random() < 0.6]
     rng.shuffle(keys)
     rename = rng.random() < 0.3
@@ -220,12 +232,20 @@ def gen(rng: random.Random, tier: str):
         attrs = U.random_attrs(rng, n, rng.choice([0.0, 0.3, 0.7, 1.0]), private=rng.random() < 0.2)
         for fmt in FORMATS:
             cases.append(mk_rt(n, edges, rng.randrange(n), fmt, _random_sel(rng, attrs), attrs, rng, names=names,
-                               tags=("random", "attrs" if attrs else "noattrs")))
+                               tags=("random", "attrs" if attrs else "noattrs"),
+                               noise=(rng.randint(2, 5) if rng.random() < 0.3 else 0)))
     for _ in range(40 if tier == "quick" else 400):
         n, edges = U.fan_dag(rng)
         attrs = U.random_attrs(rng, n, rng.choice([0.0, 0.5]))
         for fmt in FORMATS:
             cases.append(mk_rt(n, edges, rng.randrange(n), fmt, _random_sel(rng, attrs), attrs, rng, tags=("fan",)))
+    # names that collide under concatenation with a joiner (keys built by joining two names)
+    for j in U.JOINERS:
+        for _ in range(1 if tier == "quick" else 6):
+            n, edges, names = U.collide_dag(rng, j)
+            attrs = U.random_attrs(rng, n, 0.5)
+            for fmt in FORMATS:
+                cases.append(mk_rt(n, edges, rng.randrange(n), fmt, _random_sel(rng, attrs), attrs, rng, names=names, tags=("collide-names",)))
     # constructors on their own: mostly valid + malformed stream
     nc = 400 if tier == "quick" else 4000
     for _ in range(nc):
@@ -302,8 +322,13 @@ def _canon_built(ret, name_id):
     return "ret=%s N=%s E=%s A=%s" % (nid(ret), core.nats(nid(o) for o in byid), U.enc_edges(es), _semi(a))
 
 
-def _sel_kwargs(sel):
+def _sel_kwargs(sel, dflt=False):
+    if dflt and not sel:
+        return {}
     return {"all_attrs": True} if sel == "all" else {"attr_dict": {k: v for k, v in sel}}
+
+
+ARG_CHANGED = []   # filled by _export when an exporter modified the caller's attr_dict
 
 
 def _export(d, nodes):
@@ -314,14 +339,21 @@ def _export(d, nodes):
     if d["fmt"] == "list":
         x = bigtree.dag_to_list(s)
         return x, U.enc_edges([(name_id[p], name_id[c]) for p, c in x])
+    kw = _sel_kwargs(d["sel"], d.get("dflt"))
+    kw0 = {k: (dict(v) if isinstance(v, dict) else v) for k, v in kw.items()}
+    del ARG_CHANGED[:]
     if d["fmt"] == "dict":
-        x = bigtree.dag_to_dict(s, **_sel_kwargs(d["sel"]))
+        x = bigtree.dag_to_dict(s, **kw)
+        if kw != kw0:
+            ARG_CHANGED.append(f"dag_to_dict changed the caller's attr_dict {kw0.get('attr_dict')} -> {kw.get('attr_dict')}")
         items = []
         for k, v in x.items():
             ps = [name_id[p] for p in v["parents"]] if "parents" in v else None
             items.append(_enc_entry(name_id[k], ps, {a: _canon_val(b) for a, b in v.items() if a != "parents"}))
         return x, _semi(items)
-    x = bigtree.dag_to_dataframe(s, **_sel_kwargs(d["sel"]))
+    x = bigtree.dag_to_dataframe(s, **kw)
+    if kw != kw0:
+        ARG_CHANGED.append(f"dag_to_dataframe changed the caller's attr_dict {kw0.get('attr_dict')} -> {kw.get('attr_dict')}")
     items = []
     for row in x.to_dict("records"):
         p = row["parent"]
@@ -429,6 +461,7 @@ def oracle(case):
         msgs += sym
         E = sorted((names[p], names[c]) for p, c in es)
         x, _xs = _export(d, nodes)
+        msgs += ARG_CHANGED
         fmt, sel = d["fmt"], d["sel"]
         want_attrs = {n.node_name: _requested(sel, n) for n in nodes}
         roots = sorted(n.node_name for n in nodes if not list(n.parents))
